@@ -452,6 +452,11 @@ class LibMixin:
         vt = self.term(v, st, t.args[0])
         st.assume(z3.ForAll([i], z3.Select(new, i) == z3.If(i == 0, vt, z3.Select(a, i - 1)),
                             patterns=[z3.Select(new, i)]))
+        if t.args[0].kind == 'bytes':
+            from .execcont import bsum_fn
+            k = z3.Int('k!bi')
+            st.assume(z3.ForAll([k], z3.Implies(k >= 0, bsum_fn(new, k + 1) == blen(vt) + bsum_fn(a, k)),
+                                patterns=[bsum_fn(new, k + 1), bsum_fn(a, k)]))
         self.write_cont(c, st, t.mk(n + 1, new), node)
         yield st, NoneV()
 
@@ -674,6 +679,9 @@ class LibMixin:
         yield st, Sc(fresh('fmt', Str), STR)
 
     def sm_join(self, s, args, kw, st, frame, node):
+        if s.t.kind == 'bytes' and 'bytes.join' in self.ctx.stubs:
+            yield from self.ctx.stubs['bytes.join'](self, s, args, kw, st, frame, node)
+            return
         hook = self.ctx.stubs.get('str.join')
         if hook:
             yield from hook(self, s, args, kw, st, frame, node)
@@ -826,6 +834,17 @@ class LibMixin:
             terms = [self.term(v, st) for v in vals[1:]]
             f = z3.Function('ghost_' + fname, *[t.sort() for t in terms], z3.IntSort())
             return Sc(f(*terms), INT)
+        if name == 'bsum':
+            from .execcont import bsum_fn
+            lst = vals[0]
+            return Sc(bsum_fn(lst.t.acc('arr')(self.c_term(lst, st)), self.term(vals[1], st, INT)), INT)
+        if name == 'bsum_unfold':
+            # definitional unfolding of bsum at index j: bsum(l, j+1) == bsum(l, j) + len(l[j])   (j >= 0)
+            from .execcont import bsum_fn
+            lst = vals[0]
+            arr = lst.t.acc('arr')(self.c_term(lst, st))
+            j = self.term(vals[1], st, INT)
+            return Sc(z3.Implies(j >= 0, bsum_fn(arr, j + 1) == bsum_fn(arr, j) + blen(z3.Select(arr, j))), BOOL)
         if name == 'as_':
             return RefV(vals[0].term, ref(a[1].id), False)
         if name == 'hash':
